@@ -292,6 +292,46 @@ func (check typecheck) switchCases(tag *node, clauses []*node) error {
 	return nil
 }
 
+var constToken = map[action]token.Token{
+	aAdd: token.ADD, aSub: token.SUB, aMul: token.MUL, aQuo: token.QUO, aRem: token.REM,
+	aAnd: token.AND, aOr: token.OR, aXor: token.XOR, aAndNot: token.AND_NOT, aShl: token.SHL, aShr: token.SHR,
+	aNeg: token.SUB, aPos: token.ADD, aBitNot: token.XOR, aNot: token.NOT,
+}
+
+// constExpr type checks the operation of n on constant operands of a numeric type: the exact
+// result must be defined and representable by a value of this type.
+func (check typecheck) constExpr(n *node) error {
+	c0, c1 := n.child[0], n.lastChild()
+	t, tok := c0.typ.TypeOf(), constToken[n.action]
+	x, y := constValue(c0.rval), constValue(c1.rval)
+	if x == nil || y == nil || isConstantValue(c0.rval.Type()) && (isShiftAction(n.action) || isConstantValue(c1.rval.Type())) {
+		return nil // Not a number, or an untyped constant operation, which is exact.
+	}
+	if isInt(t) {
+		if x, y = constant.ToInt(x), constant.ToInt(y); x.Kind() != constant.Int || y.Kind() != constant.Int {
+			return n.cfgErrorf("constant truncated to %s", c0.typ.id())
+		}
+	}
+	switch {
+	case c1 == c0 && isUint(t):
+		x = constant.UnaryOp(tok, x, uint(t.Size())*8) // The size gives the complement of an unsigned.
+	case c1 == c0:
+		x = constant.UnaryOp(tok, x, 0)
+	case isShiftAction(n.action):
+		x = constant.Shift(x, tok, uint(min(vUint(c1.rval), 512))) // Larger counts give the same result.
+	case (tok == token.QUO || tok == token.REM) && constant.Sign(y) == 0:
+		return n.cfgErrorf("invalid operation: division by zero")
+	case tok == token.QUO && isInt(t):
+		x = constant.BinaryOp(x, token.QUO_ASSIGN, y)
+	default:
+		x = constant.BinaryOp(x, tok, y)
+	}
+	if !representableConst(x, t) {
+		return n.cfgErrorf("constant %s overflows %s", x.String(), c0.typ.id())
+	}
+	return nil
+}
+
 var binaryOpPredicates = opPredicates{
 	aAdd: func(typ reflect.Type) bool { return isNumber(typ) || isString(typ) },
 	aSub: isNumber,
